@@ -28,6 +28,8 @@ PlanOp make_sentence_op(Rng& rng, const std::string& key, const OpShape& sh);
 void add_byte_faults(PlanOp& op, Rng& rng, int n, const ref::Model* m);
 void add_token_faults(PlanOp& op, Rng& rng, int n, const ref::Model& m);
 std::string byte_soup(Rng& rng, const ref::Model* m, int n);
+// replaces the lexeme of one token by a very long one (>= 64 KiB) of the same term; false if the sentence has no stretchable term
+bool stretch_one_lexeme(PlanOp& op, Rng& rng, const ref::Model& m, size_t target_len);
 
 Plan single_op_plan(const std::string& property, uint64_t seed, int64_t index, const std::string& mode, const PlanOp& op);
 
